@@ -36,11 +36,13 @@ func init() {
 
 const (
 	csUsers   = 4
-	csTokens  = 4 // T0..T2 may be whitelisted, T3 ("feecoin") never is
+	csTokens  = 4 // T0..T2 may be whitelisted, T3 ("fee-1") never is
 	csMaxPool = 4
 )
 
-var csTokNames = []string{"tokena", "tokenb", "ibc/17CD484EE7D9723B847D95015FA3EBD1572FD13BC84FB838F55B18A57450F25B", "feecoin"}
+// the last token is an ordinary coin whose name has the shape <word>-<number> of a pool-token denomination
+// ("lpt-1"): ParseLptDenom accepts it, only the denomination index tells it from a pool token
+var csTokNames = []string{"tokena", "tokenb", "ibc/17CD484EE7D9723B847D95015FA3EBD1572FD13BC84FB838F55B18A57450F25B", "fee-1"}
 var csModules = []string{coinswaptypes.ModuleName, authtypes.FeeCollectorName, distrtypes.ModuleName, erc20types.ModuleName}
 
 // ---- replay format ----
@@ -947,8 +949,9 @@ func (e *Env) csGenOp(w *csWorld, o csObs, now *big.Int, prop string) csOp {
 		}
 		lc := fmt.Sprintf("L%d", q)
 		op.Din = lc
-		if e.Chance(0.02) {
-			op.Din = "T0"
+		if e.Chance(0.05) { // an ordinary coin offered as pool token (one of them named like a pool token)
+			op.Din = []string{"T0", "T3", "T3"}[e.Pick(3)]
+			e.Stats.Count("remove:ordinary-coin-as-pool-token")
 		}
 		if e.Chance(0.1) {
 			op.Pres = "upper"
